@@ -29,12 +29,12 @@ func c01E(c *ctx, h ws.Header) {
 // both decoders on arbitrary bytes under a chunking
 func c01D(c *ctx, data []byte, spec, tail string) {
 	r1 := newChunkReader(data, spec, tail)
-	h1, err1 := ws.ReadHeader(r1)
+	h1, err1 := ws.ReadHeader(r1.R())
 	r2 := newChunkReader(data, spec, tail)
-	rd := &wsutil.Reader{Source: r2, SkipHeaderCheck: true}
+	rd := &wsutil.Reader{Source: r2.R(), SkipHeaderCheck: true}
 	h2, err2 := rd.NextFrame()
 	c.emit("C01D %s %s %s -> %s %s %d %s %s %d", hx(data), spec, tail,
-		ioErrClass(err1), hdrStr(h1), r1.consumed, ioErrClass(err2), hdrStr(h2), r2.consumed)
+		ioErrClass(err1), hdrStr(h1), r1.used(), ioErrClass(err2), hdrStr(h2), r2.used())
 }
 
 // frames: WriteFrame / CompileFrame, then ReadFrame of compiled++rest under a chunking
@@ -51,17 +51,17 @@ func c01F(c *ctx, h ws.Header, payload, rest []byte, spec string) {
 	okMust := bytes.Equal(must, comp) || errC != nil
 	stream := append(append([]byte(nil), comp...), rest...)
 	r := newChunkReader(stream, spec, "eof")
-	g, errR := ws.ReadFrame(r)
+	g, errR := ws.ReadFrame(r.R())
 	c.emit("C01F %s %s %s %s -> %s %s %d %d %d | %s %s %s %d", hdrStr(h), hx(payload), hx(rest), spec,
 		hxList(w.calls), hx(comp), b2i(errW == nil), b2i(errC == nil), b2i(okMust),
-		ioErrClass(errR), hdrStr(g.Header), hx(g.Payload), r.consumed)
+		ioErrClass(errR), hdrStr(g.Header), hx(g.Payload), r.used())
 }
 
 // ReadFrame on arbitrary bytes
 func c01G(c *ctx, data []byte, spec, tail string) {
 	r := newChunkReader(data, spec, tail)
-	g, err := ws.ReadFrame(r)
-	c.emit("C01G %s %s %s -> %s %s %s %d", hx(data), spec, tail, ioErrClass(err), hdrStr(g.Header), hx(g.Payload), r.consumed)
+	g, err := ws.ReadFrame(r.R())
+	c.emit("C01G %s %s %s -> %s %s %s %d", hx(data), spec, tail, ioErrClass(err), hdrStr(g.Header), hx(g.Payload), r.used())
 }
 
 var c01Lens = []int64{0, 1, 124, 125, 126, 127, 128, 65534, 65535, 65536, 65537, 1<<31 - 1, 1 << 31, 1 << 32, 1 << 62, 1<<63 - 1}
